@@ -118,16 +118,22 @@ def extract(repo=core.REPO):
         raise ExtractionError('signature changed')
     body = _strip_doc(fn.body)
     body = [s for s in body if not isinstance(s, (ast.Import, ast.ImportFrom))]
+    if len(body) == 4 and _u(body[1]) == 'if a == 0 and b == 0:\n    out.data[:] = 0\n    return':
+        zero_guard = 'true'
+        body = [body[0]] + body[2:]
+    else:
+        zero_guard = 'false'
     if len(body) != 3:
-        raise ExtractionError('expected size assignment, regime if, dispatch if; got {} statements'
-                              .format(len(body)))
+        raise ExtractionError('expected size assignment, [zero guard,] regime if, dispatch if; '
+                              'got {} statements'.format(len(body)))
     if _u(body[0]) != 'size = native(x1.size)':
         raise ExtractionError('size computation changed: ' + _u(body[0]))
     reg = body[1]
     if not isinstance(reg, ast.If) or _u(reg.test) != 'size < THRESHOLD_SMALL':
         raise ExtractionError('regime test 1 changed')
-    if [_u(s) for s in reg.body] != ['out.data[:] = a * x1.data + b * x2.data', 'return']:
-        raise ExtractionError('small-size branch changed: ' + repr([_u(s) for s in reg.body]))
+    small_body = [_u(s) for s in reg.body]
+    if small_body != ['out.data[:] = a * x1.data + b * x2.data', 'return']:
+        raise ExtractionError('small-size branch changed: ' + repr(small_body))
     if len(reg.orelse) != 1 or not isinstance(reg.orelse[0], ast.If):
         raise ExtractionError('regime structure changed')
     reg2 = reg.orelse[0]
@@ -179,13 +185,15 @@ def thrSmall : Nat := {small}
 def thrMedium : Nat := {medium}
 /-- `fallback_axpy` is `x2 += a * x1`, guarded by `a != 0` iff true. -/
 def fbGuard : Bool := {guard}
+/-- `if a == 0 and b == 0: out.data[:] = 0; return` precedes the regime selection iff true. -/
+def zeroGuard : Bool := {szg}
 /-- The alias/scalar dispatch of `_lincomb_impl`, in program order. -/
 def prog : Stmt :=
   {prog}
 
 end OdlModel.Gen.Lincomb
 '''.format(small=consts['THRESHOLD_SMALL'], medium=consts['THRESHOLD_MEDIUM'], guard=guard,
-           prog=prog)
+           szg=zero_guard, prog=prog)
     return lean
 
 
